@@ -17,6 +17,7 @@ import (
 	"verif/h/drive"
 	"verif/h/gen"
 	"verif/h/model"
+	"verif/h/refbin"
 )
 
 // C17 — Unmarshal either fills the target faithfully or returns an error.
@@ -824,6 +825,10 @@ type C17Stream struct {
 	// Wrapper: every value is decoded with DecodeTo into the *same* annotation
 	// wrapper variable (nothing of an earlier value may linger).
 	Wrapper bool `json:"wrapper,omitempty"`
+	// AnnStructs: the top-level structs of the stream carry the annotations
+	// meta::$ion_symbol_table:: -- user values all the same (only a first
+	// annotation $ion_symbol_table makes a symbol table), decoded like the rest
+	AnnStructs bool `json:"ann_structs,omitempty"`
 }
 
 type c17Wrap struct {
@@ -833,12 +838,21 @@ type c17Wrap struct {
 
 func runC17Stream(c C17Stream) string {
 	st := Stat("C17")
-	st.Eval(len(c.Vals) > 1, model.Digest(c.Vals)^uint64(len(c.Vals))<<3, "decoder-stream")
+	st.Eval(len(c.Vals) > 1, model.Digest(c.Vals)^uint64(len(c.Vals))<<3, "decoder-stream", map[bool]string{true: "decoder-stream.annotated-structs", false: "decoder-stream.plain"}[c.AnnStructs])
 	var data []byte
+	render := c.Vals
+	if c.AnnStructs {
+		render = append([]model.Value{}, c.Vals...)
+		for i := range render {
+			if render[i].Kind == model.Struct && !render[i].IsNull {
+				render[i].Ann = []model.Sym{model.S("meta"), model.S("$ion_symbol_table")}
+			}
+		}
+	}
 	if c.Binary {
-		data = encodeDoc(c.Vals, nil).Doc
+		data = encodeDoc(render, nil).Doc
 	} else {
-		data = printDoc(c.Vals, nil).Doc
+		data = printDoc(render, nil).Doc
 	}
 	return drive.Guard2(func() string {
 		d := ion.NewDecoder(ion.NewReaderBytes(data))
@@ -904,6 +918,7 @@ func genC17Stream(t *rapid.T) C17Stream {
 		}
 		c.Vals = append(c.Vals, v)
 	}
+	c.AnnStructs = !c.Wrapper && gen.Chance(t, 30)
 	if c.Wrapper {
 		// wrapper streams skip Ion structs, so the ErrNoInput tail must account for them:
 		// drop them from the stream altogether
@@ -918,7 +933,125 @@ func genC17Stream(t *rapid.T) C17Stream {
 	return c
 }
 
+// ---- documents that import a shared table handed to Unmarshal / the Decoder
+
+// C17Import: a document importing table "t" version 1 with a declared max_id
+// that may exceed the table (the excess IDs are defined, text-less slots),
+// followed by a list of symbols given by ID.
+type C17Import struct {
+	Symbols []string `json:"symbols"`
+	MaxID   int      `json:"max_id"`
+	IDs     []int    `json:"ids"` // offsets from the first imported ID (10)
+	Binary  bool     `json:"binary,omitempty"`
+	Target  int      `json:"target"` // 0 interface{}, 1 []interface{}, 2 []string, 3 []SymbolToken, 4 Decoder.Decode
+}
+
+func runC17Import(c C17Import) string {
+	st := Stat("C17")
+	gap := false
+	for _, k := range c.IDs {
+		gap = gap || (k >= len(c.Symbols) && k < c.MaxID)
+	}
+	st.Eval(gap, model.DigestBytes("c17import", []byte(fmt.Sprintf("%+v", c))), "imported-table", map[bool]string{true: "imported-table.id-in-padding", false: "imported-table.defined-ids"}[gap])
+	st.Sample(func() string { return fmt.Sprintf("%+v", c) })
+	var elems []model.Value
+	for _, k := range c.IDs {
+		if k < len(c.Symbols) {
+			if c.Target == 2 {
+				elems = append(elems, model.StrV(c.Symbols[k])) // a symbol with text into a Go string
+			} else {
+				elems = append(elems, model.SymV(model.S(c.Symbols[k])))
+			}
+		}
+	}
+	var data []byte
+	if c.Binary {
+		e := refbin.NewEnc(nil)
+		data = append(data, refbin.IVM...)
+		data = e.LST(data, []refbin.Import{{Name: "t", Version: 1, MaxID: c.MaxID}}, nil, false)
+		var body []byte
+		for _, k := range c.IDs {
+			body = append(body, 0x71, byte(10+k)) // symbol, one-byte ID (at most 4 of them)
+		}
+		data = append(data, byte(0xB0|len(body)))
+		data = append(data, body...)
+	} else {
+		var sb strings.Builder
+		fmt.Fprintf(&sb, "$ion_symbol_table::{imports:[{name:\"t\",version:1,max_id:%d}]} [", c.MaxID)
+		for i, k := range c.IDs {
+			if i > 0 {
+				sb.WriteString(",")
+			}
+			fmt.Fprintf(&sb, "$%d", 10+k)
+		}
+		sb.WriteString("]")
+		data = []byte(sb.String())
+	}
+	sst := ion.NewSharedSymbolTable("t", 1, c.Symbols)
+	allDefined := len(elems) == len(c.IDs)
+	var err error
+	var got interface{}
+	perr := drive.Guard(func() error {
+		switch c.Target {
+		case 0:
+			err = ion.Unmarshal(data, &got, sst)
+		case 1:
+			var x []interface{}
+			err = ion.Unmarshal(data, &x, sst)
+			got = x
+		case 2:
+			var x []string
+			err = ion.Unmarshal(data, &x, sst)
+			got = x
+		case 3:
+			var x []ion.SymbolToken
+			err = ion.Unmarshal(data, &x, sst)
+			got = x
+		default:
+			got, err = ion.NewDecoder(ion.NewReaderCat(bytes.NewReader(data), ion.NewCatalog(sst))).Decode()
+		}
+		return nil
+	})
+	if pe, ok := perr.(*drive.PanicError); ok {
+		return fmt.Sprintf("decoding panics: %s\ndocument: %s", firstLine(pe.Error(), 300), showDoc(data))
+	}
+	if allDefined && c.Target != 3 {
+		// every ID names a symbol of the table: the list of their texts
+		if err != nil {
+			return fmt.Sprintf("decoding fails on a valid document: %v\ndocument: %s", err, showDoc(data))
+		}
+		m := drive.ModelOf(reflect.ValueOf(&got).Elem(), drive.HNone)
+		if dd := looseDiff(ifaceNorm(model.ListV(elems...)), m); dd != "" {
+			return fmt.Sprintf("decoded %s, the document's value is %s: %s\ndocument: %s", m.String(), model.ListV(elems...).String(), dd, showDoc(data))
+		}
+	}
+	return ""
+}
+
+func genC17Import(t *rapid.T) C17Import {
+	c := C17Import{Binary: gen.Chance(t, 50), Target: gen.Intn(t, 5)}
+	n := gen.Range(t, 0, 4)
+	for i := 0; i < n; i++ {
+		c.Symbols = append(c.Symbols, gen.Pick(t, []string{"a", "b", "c", "name", "x y"}))
+	}
+	c.MaxID = n + gen.Pick(t, []int{0, 0, 1, 2, 5})
+	if c.MaxID > 0 && gen.Chance(t, 15) {
+		c.MaxID = gen.Range(t, 0, n) // a declared max_id below the table: a prefix
+		c.Symbols = c.Symbols[:c.MaxID]
+	}
+	if c.MaxID == 0 {
+		return c
+	}
+	k := gen.Range(t, 1, 4)
+	for i := 0; i < k; i++ {
+		c.IDs = append(c.IDs, gen.Intn(t, c.MaxID))
+	}
+	return c
+}
+
 func TestC17(t *testing.T) {
+	pi := Prop[C17Import]{ID: "C17", Sub: "imported-table", Gen: genC17Import, Run: runC17Import, Quick: 3000, Thorough: 60000}
+	defer RunProp(t, pi)
 	p := Prop[C17Case]{ID: "C17", Sub: "convert", Gen: genC17, Run: runC17, Quick: 10000, Thorough: 200000}
 	ps := Prop[C17Stream]{ID: "C17", Sub: "decoder-stream", Gen: genC17Stream, Run: runC17Stream, Quick: 3000, Thorough: 60000}
 	EnumerateSharded(t, p, "matrix", func(shard, nshards int, yield func(C17Case) bool) {
